@@ -131,6 +131,8 @@ def check_message(ctx, dec, q, names, b, spec, edition, sec2):
                             'query %r returned %r, the section layout gives %r' % (expr, norm(got), norm(e)),
                             dict(spec, expr=expr), expected=norm(e), observed=norm(got))
     ctx.sample(dict(edition=edition, sec2=sec2, example='%section_length', length=len(b)))
+    if spec.get('origin') == 'core' or ctx.rng.random() < 0.05:
+        cli_md_query(ctx, b, spec, secs, names, '%d' % (ctx.counters.get('cli_query_runs', 0)))
     # ---- malformed expressions
     for expr in MALFORMED:
         ctx.evaluated((len(b), 'malformed', expr), True)
@@ -186,6 +188,48 @@ def check_message(ctx, dec, q, names, b, spec, edition, sec2):
                     ctx.violate('info-only-value/%s/%s' % (vname, nme), 'info-only decode gives %s = %r, full decode %r, layout %r'
                                 % (expr, norm(got), norm(full), norm(e)), dict(spec, variant=vname, expr=expr))
                     break
+
+
+def cli_md_query(ctx, b, spec, secs, names, tag):
+    """`pybufrkit query %expr file` (metadata-only decode inside the command) prints the file name and the value"""
+    from mon.cli import run_cli
+    scratch = os.path.join(os.environ.get('VERIF_SCRATCH', '/verif/.scratch'), 'c17-%d' % ctx.shard)
+    os.makedirs(scratch, exist_ok=True)
+    path = os.path.join(scratch, 'md_%s.bufr' % tag)
+    with open(path, 'wb') as f:
+        f.write(b)
+    try:
+        picks = [nme for nme in names if nme != 'template_data']
+        ctx.rng.shuffle(picks)
+        for nme in picks[:6]:
+            for k in (None, ctx.rng.choice(INDICES)):
+                exp = None
+                for idx, d in secs:
+                    if nme in d and (k is None or idx == k):
+                        exp = d[nme]
+                        break
+                if exp is None and any(nme in d for idx, d in secs if idx >= 4):
+                    continue       # sections 4/5 are not part of a metadata-only decode
+                if any(nme in d for idx, d in secs if idx >= 4) and k is None and not any(nme in d for idx, d in secs if idx < 4):
+                    continue
+                expr = '%' + nme if k is None else '%%%d.%s' % (k, nme)
+                if k is not None and k >= 4:
+                    continue
+                ctx.count('cli_query_runs')
+                ctx.evaluated((len(b), b[:40].hex(), 'cli', expr), True)
+                so, se, exc, code = run_cli(['query', expr, path])
+                if exc is not None or se.strip():
+                    ctx.violate('cli-query-fails', 'pybufrkit query %r failed: %r %s' % (expr, exc, se[:120]), dict(spec, expr=expr))
+                    continue
+                lines = so.splitlines()
+                if lines[:1] != [path] or lines[1:] != [str(exp)]:
+                    ctx.violate('cli-query-output-differs', 'pybufrkit query %r printed %r, the section layout gives %r' % (expr, lines[1:3], exp),
+                                dict(spec, expr=expr), expected=str(exp), observed=so[:200])
+    finally:
+        try:
+            os.remove(path)
+        except OSError:
+            pass
 
 
 def declared_length_stream(ctx, dec, rng, k):
